@@ -220,7 +220,9 @@ Definition same_values (a b : list val) : bool := list_eqb val_eqb a b.
 
 (* class of a Run case; 0 = not a recorded finding *)
 Definition run_class (path : Z) (st : list piece) (p1 p2 : list cparam) (d k : list Z) : Z :=
-  let got_raw := (nthz d 2 =? nthz d 4) && (nthz d 3 =? nthz d 5) in
+  (* the first execution that differs returned exactly what the statement returns with its
+     placeholders left unbound (a later difference may be its consequence) *)
+  let got_raw := if nthz d 2 =? nthz d 0 then nthz d 3 =? nthz d 5 else nthz d 2 =? nthz d 4 in
   let first_ok := nthz d 2 =? nthz d 0 in
   let second_bad := negb (nthz d 3 =? nthz d 1) in
   (* the first execution that differs is one on which the bound statement raised an error (a later
